@@ -46,7 +46,7 @@ type Query {
   named: [Named]
   owned: [Owned!]
   people: [Person!]!
-  echo(s: String = "d", f: Filter): String
+  echo(s: String = "d", f: Filter, id: ID): String
   count: Int!
   color(c: Color = RED): Color
   need(n: Int! = 1): Int!
@@ -83,6 +83,10 @@ def _outcome(ctx, root, info):
         # ONE error object per message for the life of the process: a resolver raising a pre-built instance (module-level constant) at several
         # positions and in several requests - every position still gets its own error, path and location
         raise _SHARED_ERRORS.setdefault(oc[1], ResolverError(oc[1]))
+    if oc[1].startswith("IndexError"):
+        raise IndexError(oc[1])         # an unexpected exception of a class that library code catches for its own purposes somewhere
+    if oc[1].startswith("KeyError"):
+        raise KeyError(oc[1])
     raise RuntimeError(oc[1])
 
 
@@ -423,6 +427,9 @@ def worlds_for(schema, query, variables, operation_name=None, with_boom=False, l
     if len(leaves) >= 2:
         fixed.append(("shared-error@%s+%s" % (leaves[0], leaves[-1]), {leaves[0]: ("shared-error", "S1"), leaves[-1]: ("shared-error", "S1")}))
         fixed.append(("shared-error@%s+%s" % (leaves[0], leaves[1]), {leaves[0]: ("shared-error", "S2"), leaves[1]: ("shared-error", "S2")}))
+    if with_boom and paths:
+        fixed.append(("boom-index@%s" % (paths[0][0],), {paths[0][0]: ("boom", "IndexError: unexpected")}))
+        fixed.append(("boom-key@%s" % (paths[-1][0],), {paths[-1][0]: ("boom", "KeyError: unexpected")}))
     if limit is not None and len(out) > limit:
         step = len(out) / float(limit)
         out = [out[int(i * step)] for i in range(limit)]
